@@ -170,6 +170,7 @@ package domain
 
 // Load (C12): one rule = one Add of the parsed pattern; a parse error stops it.
 //@ func Load [C12]
+//@   log loadRule
 //@   requires m != nil
 //@   modifies *
 //@   ensures calls(AddI) <= 1 && (calls(AddI) == 1 ==> arg(AddI, 0, 0) == m && result == ret(AddI, 0))
@@ -184,3 +185,20 @@ package domain
 //@   ensures result != nil && fresh(result) && result.regs != nil && len(result.regs) == 0
 //@ func NewKeywordMatcher [C12]
 //@   ensures result != nil && fresh(result) && result.kws != nil && len(result.kws) == 0
+
+// LoadFromTextReader (C12): every line the scanner yields (bufio.Scanner also yields a last line
+// that has no newline) is stripped of its '#' comment and surrounding space; an empty rest is
+// skipped, anything else is loaded as exactly one rule; the first bad rule stops the load with an
+// error; at the end the scanner's own error is returned.
+//@ func LoadFromTextReader [C12]
+//@   wraparound
+//@   requires m != nil && r != nil
+//@   modifies *
+//@   ensures calls(bufioNewScanner) == 1 && arg(bufioNewScanner, 0, 0) == r
+//@   ensures calls(scanErr) == 1 ==> result == ret(scanErr, 0) && lastret(scanScan) == false
+//@   ensures calls(scanErr) == 0 ==> result != nil && lastret(loadRule) != nil
+//@   loop 0:
+//@     invariant scanner != nil && m != nil && calls(scanErr) == 0
+//@     each iter_calls(scanScan) == 1 && iter_ret(scanScan, 0) && iter_calls(scanText) == 1 && iter_calls(RemoveComment) == 1 && iter_arg(RemoveComment, 0, 0) == iter_ret(scanText, 0) && iter_arg(RemoveComment, 0, 1) == "#"
+//@     each len(tsp(iter_ret(RemoveComment, 0))) == 0 ==> iter_calls(loadRule) == 0
+//@     each len(tsp(iter_ret(RemoveComment, 0))) != 0 ==> iter_calls(loadRule) == 1 && iter_arg(loadRule, 0, 0) == m && iter_arg(loadRule, 0, 1) == tsp(iter_ret(RemoveComment, 0)) && iter_ret(loadRule, 0) == nil
